@@ -20,6 +20,7 @@ import (
 	"strconv"
 	"strings"
 	"sync"
+	"sync/atomic"
 	"time"
 
 	"github.com/nulab/autog"
@@ -1079,6 +1080,8 @@ func runStress(job *spec.Job) spec.Result {
 	}
 	var wg sync.WaitGroup
 	var mu sync.Mutex
+	var diffs []spec.Outcome
+	var completed atomic.Int64
 	start := make(chan struct{})
 	for gi := 0; gi < job.Goroutines; gi++ {
 		wg.Add(1)
@@ -1088,19 +1091,64 @@ func runStress(job *spec.Job) spec.Result {
 			for r := 0; r < job.Rounds; r++ {
 				i := (gi + r) % len(job.Calls)
 				oc := plainCall(&job.Calls[i], sharedArgs[i])
+				completed.Add(1)
 				if job.Calls[i].Opts.P1 == "greedy-random" {
 					continue // clock-seeded by design: runs for the race detector's benefit, results are not comparable
 				}
 				if oc.Hash != res.Solo[i].Hash {
 					mu.Lock()
 					oc.Detail = fmt.Sprintf("goroutine %d round %d call %d: concurrent result %s differs from sequential %s; %s", gi, r, i, oc.Hash, res.Solo[i].Hash, oc.Detail)
-					res.Outcomes = append(res.Outcomes, oc)
+					diffs = append(diffs, oc)
 					mu.Unlock()
 				}
 			}
 		}(gi)
 	}
 	close(start)
-	wg.Wait()
+	allDone := make(chan struct{})
+	go func() { wg.Wait(); close(allDone) }()
+	// stall watchdog: every input returned alone (and within a small simulated budget) a moment ago. If NO call completes
+	// anywhere for several minutes the goroutines are stuck for good; what was observed until then (result differences,
+	// race reports on stderr) is handed back instead of being lost to the supervisor's timeout. The stall itself is
+	// reported as trouble, never as a verdict: it is a wall-clock observation.
+	last, lastAt := int64(0), time.Now()
+	tick := time.NewTicker(2 * time.Second)
+	defer tick.Stop()
+wait:
+	for {
+		select {
+		case <-allDone:
+			break wait
+		case <-tick.C:
+			if n := completed.Load(); n != last {
+				last, lastAt = n, time.Now()
+			} else if time.Since(lastAt) > 4*time.Minute {
+				buf := make([]byte, 1<<20)
+				buf = buf[:runtime.Stack(buf, true)]
+				fns := map[string]int{}
+				for _, blk := range strings.Split(string(buf), "\n\n") {
+					for _, ln := range strings.Split(blk, "\n") {
+						if strings.HasPrefix(ln, "github.com/nulab/autog/") && !strings.Contains(ln, "/zzverif/") {
+							if k := strings.Index(ln, "("); k > 0 {
+								ln = ln[:k]
+							}
+							fns[strings.TrimPrefix(ln, "github.com/nulab/autog/")]++
+							break
+						}
+					}
+				}
+				var parts []string
+				for f, n := range fns {
+					parts = append(parts, fmt.Sprintf("%s x%d", f, n))
+				}
+				sort.Strings(parts)
+				res.Stalled = fmt.Sprintf("no Layout call completed for %v after %d completed calls; innermost library frames of the stuck goroutines: %s", time.Since(lastAt).Round(time.Second), last, strings.Join(parts, ", "))
+				break wait
+			}
+		}
+	}
+	mu.Lock()
+	res.Outcomes = append(res.Outcomes, diffs...)
+	mu.Unlock()
 	return res
 }
